@@ -238,7 +238,7 @@ Proof.
   - injection H as <- _. reflexivity.
   - destruct l as [|b l]; [discriminate|]. cbn [take_exact] in H.
     destruct (take_nums cnt 1 l) as [[ns' r']|] eqn:T; [|discriminate]. injection H as <- _.
-    rewrite from_be_1. cbn [firstn]. f_equal. eapply IH; eauto.
+    try rewrite from_be_1. cbn [firstn]. f_equal. eapply IH; eauto.
 Qed.
 
 Lemma copy_n_enough n (src : bytes) : (n <= length src)%nat -> copy_n n src = firstn n src.
